@@ -23,7 +23,10 @@ reachable state of the repaired code has: `reachable_entriesCoded`).
 Quantifier reached: signatures of any length / kind mix, plain or `async def` functions and bound
 methods, any ignore list (without repetition, naming parameters), any valuation of the values into
 C08's universe, any store state, any intermediate history (any length) that does not touch the
-entry.
+entry; functions that do ANYTHING to their arguments in place (`Fn.effect`, arbitrary): "the same call"
+means the arguments as they were PASSED (`key_from_arguments_as_passed`,
+`hit_after_forced_call_mutating`; the variant keying a forced call after the body is refuted by
+`key_after_call_counterexample`).
 
 Hypotheses: `NamesOK E`; `Sortable H (embed E d)` for the two argument dicts (`sorted` is well
 defined at every dict / set node — C08's `KeysStrict`; true of every real Python value unless two
@@ -183,7 +186,7 @@ theorem hit_after_forced_call (H : Bs → Bs) (E : Env) (st : St R) (fn : Fn R) 
   cases hb : bindOf fn.cal c with
   | error e => simp [compute, hb] at hdone
   | ok b =>
-    simp only [compute, hb] at hdone ⊢
+    simp only [compute, afterCall, hb] at hdone ⊢
     cases hdone
     have hk' : argsId H E fn.cal fn.ig c = .ok k := hk
     refine call_hit (ver := .fixed) hk' (checkCode_coded_self st fn.fid) ?_
@@ -193,7 +196,7 @@ theorem hit_after_forced_call (H : Bs → Bs) (E : Env) (st : St R) (fn : Fn R) 
 /-! ### F30 — the pinned tree: `MemorizedFunc.call` stores without checking the function code -/
 
 /-- one parameter, returns its bound arguments -/
-def fnF30 : Fn (List (Nat × Val)) := ⟨0, .func [⟨0, .posKw, none⟩], [], fun b => b⟩
+def fnF30 : Fn (List (Nat × Val)) := ⟨0, .func [⟨0, .posKw, none⟩], [], fun b => b, fun c => c⟩
 
 /-- F30 (pinned tree): on a fresh cache directory `cf.call(1)` stores its result without writing
 `func_code.py`; the next `cf(1)` finds no `func_code.py`, so it does not look at the entry and
@@ -203,7 +206,7 @@ theorem old_forced_call_reexecuted_counterexample (H : Bs → Bs) :
       [.value [(0, .one 1)] true, .value [(0, .one 1)] true] := by
   have h1 : argDict fnF30.cal fnF30.ig ⟨[1], []⟩ = .ok [(.name 0, .one 1)] := by decide
   have b1 : bindOf fnF30.cal ⟨[1], []⟩ = .ok [(0, .one 1)] := by decide
-  simp only [run, JoblibModel.MemoryCache.step, argsId, h1, beforeForce, compute, b1, cachedCall,
+  simp only [run, JoblibModel.MemoryCache.step, argsId, h1, beforeForce, compute, afterCall, b1, cachedCall,
     isInCacheAndValid, checkCode, St.empty]
   simp [fnF30]
 
@@ -216,7 +219,7 @@ theorem old_check_false_but_hit_counterexample (H : Bs → Bs) :
       [.value [(0, .one 1)] true, .flag false, .value [(0, .one 1)] false] := by
   have h1 : argDict fnF30.cal fnF30.ig ⟨[1], []⟩ = .ok [(.name 0, .one 1)] := by decide
   have b1 : bindOf fnF30.cal ⟨[1], []⟩ = .ok [(0, .one 1)] := by decide
-  simp only [run, JoblibModel.MemoryCache.step, argsId, h1, beforeForce, compute, b1, cachedCall,
+  simp only [run, JoblibModel.MemoryCache.step, argsId, h1, beforeForce, compute, afterCall, b1, cachedCall,
     isInCacheAndValid, checkCode, St.empty]
   simp [fnF30, dget, dset]
 
@@ -230,7 +233,7 @@ theorem fixed_on_the_F30_witnesses (H : Bs → Bs) :
   have h1 : argDict fnF30.cal fnF30.ig ⟨[1], []⟩ = .ok [(.name 0, .one 1)] := by decide
   have b1 : bindOf fnF30.cal ⟨[1], []⟩ = .ok [(0, .one 1)] := by decide
   constructor <;>
-  · simp only [run, JoblibModel.MemoryCache.step, argsId, h1, beforeForce, compute, b1, cachedCall,
+  · simp only [run, JoblibModel.MemoryCache.step, argsId, h1, beforeForce, compute, afterCall, b1, cachedCall,
       isInCacheAndValid, checkCode, St.empty]
     simp [fnF30, dget, dset]
 
@@ -247,18 +250,116 @@ theorem wrapper_accepts (ver : JoblibModel.MemoryCache.Version) (H : Bs → Bs) 
   simp only [JoblibModel.MemoryCache.step, cachedCall, argsId, hd]
   cases (isInCacheAndValid st (fn.fid, H (stream H E d)) cb).1 with
   | some v => exact ⟨v, false, rfl⟩
-  | none => simp only [compute, hb]; exact ⟨_, true, rfl⟩
+  | none => simp only [compute, afterCall, hb]; exact ⟨_, true, rfl⟩
 
 /-- The same for `functools.partial` objects: `filter_args` never rejects their calls. -/
 theorem wrapper_accepts_nonfunction (ver : JoblibModel.MemoryCache.Version) (H : Bs → Bs) (E : Env)
     (st : St R) (fid : Nat) (s : Sig)
-    (pa : List Nat) (pk : List (Nat × Nat)) (ig : List Key) (body : List (Nat × Val) → R) (c : Call)
+    (pa : List Nat) (pk : List (Nat × Nat)) (ig : List Key) (body : List (Nat × Val) → R)
+    (eff : Call → Call) (c : Call)
     (cb : Bool) (b : List (Nat × Val)) (hb : bindOf (.part s pa pk) c = .ok b) :
-    ∃ v x, (step ver H E st (.call ⟨fid, .part s pa pk, ig, body⟩ c cb)).1 = .value v x := by
+    ∃ v x, (step ver H E st (.call ⟨fid, .part s pa pk, ig, body, eff⟩ c cb)).1 = .value v x := by
   simp only [JoblibModel.MemoryCache.step, cachedCall, argsId, argDict]
   cases (isInCacheAndValid st (fid, H (stream H E [(.star, .seq c.args), (.dstar, .map c.kwargs)])) cb).1 with
   | some v => exact ⟨v, false, rfl⟩
-  | none => simp only [compute, hb]; exact ⟨_, true, rfl⟩
+  | none => simp only [compute, afterCall, hb]; exact ⟨_, true, rfl⟩
+
+/-! ## Functions that MUTATE their arguments
+
+A cached function may work in place on the objects it is given (sort a list, pop from a dict):
+`Fn.effect` says what the `args` / `kwargs` objects hold once the body has run.  The code computes
+every key BEFORE the body runs and hands it down (`_call(call_id, …)` → `_after_call(call_id, …)`), so
+`fn.effect` is arbitrary in every theorem of this file; the three below say it explicitly.  The
+variant that computes the key of a forced call AFTER the body (`Cfg.keyAfterCall`, seeded change
+C06-r4-m3) breaks all of them: `key_after_call_counterexample`. -/
+
+/-- **Every entry is filed under the key of the arguments AS PASSED.**  For every history (either
+version of the code, any functions — whatever they do to their arguments — any store to start
+from): every key of the cache directory afterwards was there at the start, or is (function id, args id
+of the arguments AS PASSED) of one of the history's calls: `__call__`, `call_and_shelve`, the forced
+`call` — no path files a result under anything else. -/
+theorem key_from_arguments_as_passed (ver : JoblibModel.MemoryCache.Version) (H : Bs → Bs) (E : Env)
+    (st : St R) (ops : List (Op R)) (id : Nat × Bs)
+    (h : id ∈ (exec ver H E st ops).entries.map Prod.fst) :
+    id ∈ st.entries.map Prod.fst ∨
+      ∃ fn c, (fn, c) ∈ callsOf ops ∧ id.1 = fn.fid ∧ argsId H E fn.cal fn.ig c = .ok id.2 := by
+  rcases mem_keys_exec ops h with h | ⟨op, hop, fn, c, hc, h1, h2⟩
+  · exact .inl h
+  · exact .inr ⟨fn, c, List.mem_filterMap.mpr ⟨op, hop, hc⟩, h1, h2⟩
+
+/-- **After a forced call of a function that mutates its arguments, the call with the arguments AS
+PASSED is served** (repaired code).  `cf.call(x)` returned; then ANY history `mid` that does not evict,
+clear or invalidate the entry; then a call `c₂` with the key of `c₁` — the arguments equal to `x` as
+they were PASSED, in any equivalent form (`hit_after_forced_call_mutating_equivalent_partial`):
+the call is NOT executed and leaves the directory as it is, and `check_call_in_cache` answers `True`.
+`fn.effect` (what the body did to `x`) is arbitrary.  (For `cf(x)` first instead of `cf.call(x)`:
+`hit_after_call`, `check_true_after_call`.) -/
+theorem hit_after_forced_call_mutating (H : Bs → Bs) (E : Env) (st : St R) (fn : Fn R) (c₁ c₂ : Call)
+    (k : Bs) (v : R) (x : Bool) (mid : List (Op R))
+    (hk₁ : argsId H E fn.cal fn.ig c₁ = .ok k) (hk₂ : argsId H E fn.cal fn.ig c₂ = .ok k)
+    (hdone : (step .fixed H E st (.force fn c₁)).1 = .value v x)
+    (hmid : ∀ op ∈ mid, Untouched H E (fn.fid, k) op) :
+    ∃ v', step .fixed H E (exec .fixed H E (step .fixed H E st (.force fn c₁)).2 mid) (.call fn c₂ true) =
+        (.value v' false, exec .fixed H E (step .fixed H E st (.force fn c₁)).2 mid) ∧
+      step .fixed H E (exec .fixed H E (step .fixed H E st (.force fn c₁)).2 mid) (.check fn c₂ true) =
+        (.flag true, exec .fixed H E (step .fixed H E st (.force fn c₁)).2 mid) :=
+  served_of_present hk₂ (present_exec (ver := .fixed) mid (present_after_force hk₁ hdone) hmid)
+
+/-- The same after a completed `cf(x)` (either version of the code): `check_call_in_cache` on the
+arguments as passed answers `True` (the hit itself is `hit_after_call`). -/
+theorem check_true_after_call (ver : JoblibModel.MemoryCache.Version) (H : Bs → Bs) (E : Env) (st : St R)
+    (fn : Fn R) (c₁ c₂ : Call) (cb : Bool) (k : Bs) (v : R) (x : Bool) (mid : List (Op R))
+    (hk₁ : argsId H E fn.cal fn.ig c₁ = .ok k) (hk₂ : argsId H E fn.cal fn.ig c₂ = .ok k)
+    (hdone : (step ver H E st (.call fn c₁ cb)).1 = .value v x)
+    (hmid : ∀ op ∈ mid, Untouched H E (fn.fid, k) op) :
+    step ver H E (exec ver H E (step ver H E st (.call fn c₁ cb)).2 mid) (.check fn c₂ true) =
+      (.flag true, exec ver H E (step ver H E st (.call fn c₁ cb)).2 mid) := by
+  obtain ⟨_, _, h⟩ := served_of_present (ver := ver) hk₂
+    (present_exec (ver := ver) mid (present_after_call hk₁ hdone) hmid)
+  exact h
+
+/-- … with "the arguments equal to `x` AS PASSED" spelled out: `c₂` is any call Python accepts that
+binds, outside the ignore list, the same Python values as `c₁` did when it was made (`AgreeOutside` of
+the bound arguments as passed — another call form, dict / set arguments built in another order, other
+values for ignored parameters; what the body did to them afterwards plays no role). -/
+theorem hit_after_forced_call_mutating_equivalent_partial (H : Bs → Bs) (E : Env) (st : St R) (fn : Fn R)
+    (c₁ c₂ : Call) (b₁ b₂ : List (Nat × Val)) (v : R) (x : Bool) (mid : List (Op R))
+    (hn : NamesOK E) (hf : FuncLike fn.cal) (hc₁ : CallWF c₁) (hc₂ : CallWF c₂)
+    (hb₁ : bindOf fn.cal c₁ = .ok b₁) (hb₂ : bindOf fn.cal c₂ = .ok b₂)
+    (hig : fn.ig.Nodup) (hkeys : ∀ k ∈ fn.ig, k ∈ (rename fn.cal.sig b₁).map Prod.fst)
+    (hs : ∀ c d, argDict fn.cal fn.ig c = .ok d → (c = c₁ ∨ c = c₂) → Sortable H (embed E d))
+    (ha : AgreeOutside E fn.cal.sig fn.ig b₁ b₂)
+    (hdone : (step .fixed H E st (.force fn c₁)).1 = .value v x) :
+    ∃ k, argsId H E fn.cal fn.ig c₁ = .ok k ∧
+      ((∀ op ∈ mid, Untouched H E (fn.fid, k) op) →
+        ∃ v', step .fixed H E (exec .fixed H E (step .fixed H E st (.force fn c₁)).2 mid) (.call fn c₂ true) =
+            (.value v' false, exec .fixed H E (step .fixed H E st (.force fn c₁)).2 mid) ∧
+          step .fixed H E (exec .fixed H E (step .fixed H E st (.force fn c₁)).2 mid) (.check fn c₂ true) =
+            (.flag true, exec .fixed H E (step .fixed H E st (.force fn c₁)).2 mid)) := by
+  obtain ⟨k, hk₁, hk₂⟩ := key_complete_partial H E fn.cal fn.ig c₁ c₂ b₁ b₂ hn hf hc₁ hc₂ hb₁ hb₂
+    hig hkeys hs ha
+  exact ⟨k, hk₁, fun hmid => hit_after_forced_call_mutating H E st fn c₁ c₂ k v x mid hk₁ hk₂ hdone hmid⟩
+
+/-- **The variant that computes the key of a forced call AFTER the body is wrong** (`Cfg.keyAfterCall`,
+seeded change C06-r4-m3; `fnSort` returns its list argument as passed and sorts it in place, `envMut`:
+value 0 = `[3, 1, 2]`, value 1 = `[1, 2, 3]`; an injective digest).  `cf.call([3, 1, 2])`; then
+`check_call_in_cache([3, 1, 2])` is `False`; `check_call_in_cache([1, 2, 3])` — a call never made — is
+`True`; `cf([1, 2, 3])` is served the result of ANOTHER call (`[3, 1, 2]`: C02); `cf([3, 1, 2])` EXECUTES
+AGAIN.  The code as it is, on the same history: `True`, `False`, executed with its own result, served. -/
+theorem key_after_call_counterexample :
+    runC ⟨.fixed, true⟩ hId envMut St.empty
+        [.force fnSort ⟨[0], []⟩, .check fnSort ⟨[0], []⟩ true, .check fnSort ⟨[1], []⟩ true,
+          .call fnSort ⟨[1], []⟩ true, .call fnSort ⟨[0], []⟩ true] =
+      [.value [(0, .one 0)] true, .flag false, .flag true, .value [(0, .one 0)] false,
+        .value [(0, .one 0)] true] ∧
+    run .fixed hId envMut St.empty
+        [.force fnSort ⟨[0], []⟩, .check fnSort ⟨[0], []⟩ true, .check fnSort ⟨[1], []⟩ true,
+          .call fnSort ⟨[1], []⟩ true, .call fnSort ⟨[0], []⟩ true] =
+      [.value [(0, .one 0)] true, .flag true, .flag false, .value [(0, .one 1)] true,
+        .value [(0, .one 0)] false] ∧
+    fnSort.effect ⟨[0], []⟩ = ⟨[1], []⟩ ∧ envMut.val 0 ≠ envMut.val 1 := by
+  refine ⟨by decide +kernel, by decide +kernel, by decide +kernel, ?_⟩
+  simp [envMut]
 
 /-! ## Non-vacuity
 
